@@ -79,6 +79,14 @@ class CompactDiskAudioImage(Image):
 
     @property
     def children(self):
+        # apply the naming routines once (tracks are named by raw cue 
+        # sheet TITLEs otherwise)
+        if not getattr(self, "_tracks_named", False):
+            tracks = self.tracks
+            for routine in getattr(self, "_routines", {}).values():
+                tracks = routine(tracks)
+            self.tracks = tracks
+            self._tracks_named = True
         return self.tracks
 
     def combine_stereo_routine(self, samples: List[Sample]) -> List[Sample]:
